@@ -124,7 +124,7 @@ def check_c17(tier, seed):
     for head, jid, err, src in evs_head:
         if jid is None:
             evs.append(head + [{"ev": "Tii", "outcome": "build-failed: " + err[:80], "tx": "", "params": [], "parties": [], "environment": [],
-                                "params_folded": [], "parties_folded": [], "environment_folded": [], "required": [], "tir_matches": False}])
+                                "params_folded": [], "parties_folded": [], "environment_folded": [], "required": [], "tir_matches": False, "client": "na", "client_missing": []}])
         else:
             evs.append(head + results[jid].get("events", []))
     shutil.rmtree(work, ignore_errors=True)
